@@ -751,7 +751,9 @@ fn gen_traffic(rng: &mut Rng, idx: u32, rt: u64, ts: u32) -> (DltMessage, &'stat
             if rng.chance(1, 10) {
                 noar = rng.below(3) as u8;
             }
-            (mk(idx, rt, ecu, ts, htyp, Some((0x15, noar, ch(rng.pick(&APIDS)), ctid)), p), "someip")
+            // DltMessageNwType::from maps every mtin outside 2..6 to Ipc: the SOME/IP plugin selects those as well
+            let vmm: u8 = if rng.chance(1, 5) { 1 | (2 << 1) | (*rng.pick(&[0u8, 7, 15, 6, 3, 2]) << 4) } else { 0x15 };
+            (mk(idx, rt, ecu, ts, htyp, Some((vmm, noar, ch(rng.pick(&APIDS)), ctid)), p), "someip")
         }
         6 => {
             // CAN: NwTrace Can, ctid TC, frame id + data
@@ -1153,6 +1155,188 @@ fn gen_chain(rng: &mut Rng, k: u64) -> Vec<Plug> {
     chain
 }
 
+// ------------------------------------------------------------------------------------------------ wrapper models
+fn ext_coq(e: &Option<DltExtendedHeader>) -> String {
+    match e {
+        Some(e) => format!("(Some (EH {} {} {} {}))", e.verb_mstp_mtin, e.noar, c4(&e.apid), c4(&e.ctid)),
+        None => "None".to_string(),
+    }
+}
+fn text_coq(t: &Option<String>) -> String {
+    match t {
+        Some(t) => format!("(Some {})", cnums(t.as_bytes())),
+        None => "None".to_string(),
+    }
+}
+
+/// A real decoder plugin with an observer around it: for every message the plugin sees, the answer of the abstract
+/// decoding (Plugins/Decoders.v) is recorded.  NonVerbose and CAN do not change their state on the messages
+/// probed here, so their answers are taken from probe copies of the message (header removed / text preset),
+/// which makes the guards of the wrapper observable; the others are read off the real call.
+struct Spy {
+    kind: Plug,
+    inner: Box<dyn Plugin + Send>,
+    answers: Arc<Mutex<Vec<String>>>,
+}
+impl Plugin for Spy {
+    fn name(&self) -> &str {
+        self.inner.name()
+    }
+    fn enabled(&self) -> bool {
+        self.inner.enabled()
+    }
+    fn state(&self) -> Arc<RwLock<PluginState>> {
+        self.inner.state()
+    }
+    fn set_lifecycle_read_handle(&mut self, lcs_r: &LcsRType) {
+        self.inner.set_lifecycle_read_handle(lcs_r)
+    }
+    fn sync_all(&mut self) {
+        self.inner.sync_all()
+    }
+    fn process_msg(&mut self, msg: &mut DltMessage) -> bool {
+        let before = msg.clone();
+        let mut probed: Option<String> = None;
+        match self.kind {
+            Plug::NonVerbose => {
+                // what would the decoding say about this ecu / message id / payload? (same message, no header, no text)
+                let mut p = before.clone();
+                p.extended_header = None;
+                p.payload_text = None;
+                let _ = self.inner.process_msg(&mut p);
+                probed = Some(match &p.payload_text {
+                    None => "NvNoFrame".to_string(),
+                    Some(t) => format!("(NvFrame {} {})", cnums(t.as_bytes()), ext_coq(&p.extended_header)),
+                });
+            }
+            Plug::Can if !before.is_ctrl_response() => {
+                // (the control-response branch updates the channel map: not probed)
+                let mut p1 = before.clone();
+                p1.payload_text = None;
+                let _ = self.inner.process_msg(&mut p1);
+                let mut p2 = before.clone();
+                p2.payload_text = Some("\u{1}".to_string());
+                let _ = self.inner.process_msg(&mut p2);
+                probed = Some(match &p1.payload_text {
+                    None => "(CanErr [])".to_string(),
+                    Some(t) => {
+                        if p2.payload_text.as_deref() == Some("\u{1}") {
+                            format!("(CanErr {})", cnums(t.as_bytes()))
+                        } else {
+                            format!("(CanOk {})", cnums(t.as_bytes()))
+                        }
+                    }
+                });
+            }
+            _ => {}
+        }
+        let r = self.inner.process_msg(msg);
+        let text_changed = msg.payload_text != before.payload_text;
+        let ans = match (&self.kind, probed) {
+            (_, Some(a)) => a,
+            (Plug::Can, None) => match (&msg.payload_text, text_changed) {
+                (Some(t), true) => format!("(CanOk {})", cnums(t.as_bytes())),
+                _ => "(CanErr [])".to_string(),
+            },
+            (Plug::Rewrite, None) => {
+                let mut acts = vec![];
+                if text_changed {
+                    acts.push(format!("RwText {}", text_coq(&msg.payload_text)));
+                }
+                if msg.timestamp_dms != before.timestamp_dms {
+                    acts.push(format!("RwTs {}", msg.timestamp_dms));
+                }
+                clist(&acts)
+            }
+            _ => match (&msg.payload_text, text_changed) {
+                (Some(t), true) => format!("(TSet {})", cnums(t.as_bytes())),
+                _ => "TNone".to_string(),
+            },
+        };
+        self.answers.lock().unwrap().push(ans);
+        r
+    }
+}
+
+/// chain of real decoders (no FileTransfer) observed by Spies: the wrapper models with the observed answers must
+/// reproduce every forwarded message exactly (Exec/C19.v CDec); the frame oracle applies as well
+fn record_dec(sink: &mut Sink, chain: Vec<Plug>, msgs: Vec<DltMessage>, mtags: Vec<&'static str>) {
+    let allow_ts = chain.contains(&Plug::Rewrite);
+    let ins = msgs.clone();
+    let logs: Vec<Arc<Mutex<Vec<String>>>> = chain.iter().map(|_| Arc::new(Mutex::new(vec![]))).collect();
+    let chain2 = chain.clone();
+    let logs2 = logs.clone();
+    let r = catch_loc(std::panic::AssertUnwindSafe(move || {
+        let plugins = build_plugins(&chain2)?;
+        let n = plugins.len();
+        let spies: Vec<Box<dyn Plugin + Send>> = plugins
+            .into_iter()
+            .zip(chain2.iter().zip(logs2.iter()))
+            .map(|(inner, (kind, log))| Box::new(Spy { kind: kind.clone(), inner, answers: log.clone() }) as Box<dyn Plugin + Send>)
+            .collect();
+        let (res, outs) = run_loop(msgs, spies, None);
+        match res {
+            Ok(k) if k == n => Ok(outs),
+            Ok(k) => Err(format!("{} of {} plugins returned", k, n)),
+            Err(_) => Err("outflow error".to_string()),
+        }
+    }));
+    let fail = |c: &str, d: String| Verdict::Fail { clause: c.into(), detail: d };
+    let mut tags = vec!["dec".to_string(), format!("dec_chain_len{}", chain.len())];
+    for p in &chain {
+        tags.push(format!("dec_plugin_{}", p.short()));
+    }
+    for t in mtags.iter().collect::<BTreeSet<_>>() {
+        tags.push(format!("dec_msg_{}", t));
+    }
+    let (obs, verdict) = match &r {
+        Err(e) => (O::T(vec![O::L(1)]), fail("decoders_no_panic", e.clone())),
+        Ok(Err(e)) => (O::T(vec![O::L(2)]), fail("chain_runs", e.clone())),
+        Ok(Ok(outs)) => {
+            let flagged: Vec<(DltMessage, bool)> = ins.iter().map(|m| (m.clone(), false)).collect();
+            (O::T(vec![O::L(0), O::T(outs.iter().map(msg_obs).collect())]), frame_oracle(allow_ts, &flagged, outs))
+        }
+    };
+    let mut specs = vec![];
+    for (p, log) in chain.iter().zip(logs.iter()) {
+        let a = log.lock().unwrap();
+        if a.iter().any(|x| x.starts_with("(NvFrame")) {
+            tags.push("dec_nv_frame_found".into());
+        }
+        if a.iter().any(|x| x.starts_with("(CanErr [") && x.len() > 12) {
+            tags.push("dec_can_err_text".into());
+        }
+        if a.iter().any(|x| x.contains("RwTs")) {
+            tags.push("dec_rewrite_ts".into());
+        }
+        if a.iter().any(|x| x.starts_with("(TSet")) {
+            tags.push("dec_text_set".into());
+        }
+        let l = clist(&a.iter().map(|x| x.as_str()).collect::<Vec<_>>());
+        specs.push(match p {
+            Plug::NonVerbose => format!("DNv true {}", l),
+            Plug::SomeIp => format!("DSomeip {}", l),
+            Plug::Can => format!("DCan {}", l),
+            Plug::Muniic => format!("DMuniic {}", l),
+            Plug::Rewrite => format!("DRewrite true {}", l),
+            Plug::FileTransfer(_, _) => panic!("no FileTransfer in dec chains"),
+        });
+    }
+    let input_coq = format!("(CDec {} {})", clist(&specs), clist(&ins.iter().map(msg_coq).collect::<Vec<_>>()));
+    let id = sink.next_id();
+    sink.push(Case {
+        id,
+        key: format!("{:?}|{}", chain, input_coq),
+        input_coq,
+        input_json: json!({"v": "dec", "plugins": chain.iter().map(|p| p.json()).collect::<Vec<_>>(), "msgs": ins.iter().map(msg_json).collect::<Vec<_>>()}),
+        obs,
+        verdict,
+        classes: vec![],
+        tags,
+        nontrivial: ins.len() >= 3,
+    });
+}
+
 // ------------------------------------------------------------------------------------------------ lifecycle equivariance
 /// (lifecycle id, ecu, nr_msgs, start, end | 0 when empty, is_resume)
 type LcTable = Vec<(u64, u64, u64, u64, u64, u64)>;
@@ -1406,6 +1590,10 @@ fn replay(sink: &mut Sink, c: &Value) {
             let chain = c["plugins"].as_array().unwrap().iter().map(Plug::from_json).collect();
             record_frame(sink, chain, msgs(c), vec![]);
         }
+        "dec" => {
+            let chain = c["plugins"].as_array().unwrap().iter().map(Plug::from_json).collect();
+            record_dec(sink, chain, msgs(c), vec![]);
+        }
         "equiv" => record_equiv(sink, msgs(c)),
         x => panic!("unknown case kind {}", x),
     }
@@ -1489,6 +1677,19 @@ fn main() {
         record_frame(&mut sink, chain, ms, tg);
     }
 
+    {
+        let chain = vec![Plug::Rewrite, Plug::NonVerbose, Plug::Can, Plug::SomeIp, Plug::Muniic];
+        let mut r2 = Rng::new(4712);
+        let mut ms = vec![];
+        let mut tg = vec![];
+        for i in 0..30u32 {
+            let (m, t) = gen_traffic(&mut r2, i, 1_000_000 + 1000 * i as u64, i);
+            ms.push(m);
+            tg.push(t);
+        }
+        record_dec(&mut sink, chain, ms, tg);
+    }
+
     // ---- generated
     let scale = a.count.unwrap_or(if quick { 1 } else if search { 2 } else { 15 });
     for _ in 0..(250 * scale) {
@@ -1500,7 +1701,50 @@ fn main() {
         let ms = gen_anon_stream(&mut rng, n);
         record_anon(&mut sink, ms, "");
     }
-    for k in 0..(320 * scale) {
+    for k in 0..(200 * scale) {
+        // the five decoders alone (twice each per 200), then non-empty subsets in random order
+        let decoders = [Plug::NonVerbose, Plug::SomeIp, Plug::Can, Plug::Muniic, Plug::Rewrite];
+        let chain: Vec<Plug> = if k % 200 < 10 {
+            vec![decoders[(k % 5) as usize].clone()]
+        } else {
+            let mut c = gen_chain(&mut rng, 1 + k % 31);
+            c.retain(|p| !matches!(p, Plug::FileTransfer(_, _)));
+            c
+        };
+        let n = rng.range(1, 8);
+        let mut ms = vec![];
+        let mut tg = vec![];
+        let mut rt = 1_000_000_000u64;
+        for i in 0..n {
+            rt += rng.below(1_000_000);
+            let (mut m, t) = gen_traffic(&mut rng, i as u32, rt, (i * 10) as u32);
+            m.lifecycle = rng.below(4) as u32;
+            if rng.chance(1, 5) {
+                m.payload_text = Some("already decoded".into());
+            }
+            let mut t = t;
+            if chain.contains(&Plug::NonVerbose) && rng.chance(1, 3) {
+                // a message the FIBEX of /repo/tests describes (Ecu1, known ids, enough payload), with and without
+                // an extended header of its own: the `if msg.extended_header.is_none()` guard of the wrapper
+                let big = rng.chance(1, 4);
+                let id: u32 = *rng.pick(&[805312382u32, 805834673, 800000000]);
+                let mut p: Vec<u8> = if big { id.to_be_bytes().to_vec() } else { id.to_le_bytes().to_vec() };
+                let extra = *rng.pick(&[0u64, 3, 11, 14]);
+                p.extend(rand_bytes(&mut rng, extra));
+                let ext = if rng.chance(1, 2) { Some((0x40u8, rng.below(3) as u8, ch(rng.pick(&APIDS)), ch(rng.pick(&CTIDS)))) } else { None };
+                let htyp = 0x30 | if big { 2 } else { 0 } | if ext.is_some() { 1 } else { 0 };
+                let (lc, txt) = (m.lifecycle, m.payload_text.clone());
+                m = mk(i as u32, rt, ECU1, (i * 10) as u32, htyp, ext, p);
+                m.lifecycle = lc;
+                m.payload_text = txt;
+                t = "nonverbose_described";
+            }
+            ms.push(m);
+            tg.push(t);
+        }
+        record_dec(&mut sink, chain, ms, tg);
+    }
+    for k in 0..(256 * scale) {
         let chain = gen_chain(&mut rng, k);
         let n = rng.range(1, 9);
         let mut ms = vec![];
